@@ -76,6 +76,15 @@ ASSUMPTIONS = [
     "the corrected Pdrop / Prout embedding generators in vf/c13_build.py "
     "(fixed_classes) are used only to attribute a mismatch to a mechanism key, "
     "never to decide whether there is a mismatch",
+    "int / float: values are compared by kind as well (type(x) is type(y)) for "
+    "expressions whose number kinds are documented - leaves as written, omitted "
+    "Pseries/Pgeom arguments as in the port's signatures (start=0.0, step=1.0; "
+    "start=1.0, grow=1.0; length=inf), Python arithmetic in between; "
+    "expressions containing Pwrap, .clip/.wrap or mod are compared by value "
+    "only (those kernels pick the result kind from their arguments' kinds, "
+    "which no documentation fixes); a float series is not generated as Pswitch "
+    "index / Pstutter count / Pclump size (the library raises there, which is "
+    "not a documented outcome either way)",
     "event patterns, Pkey, Ptime, Pchain and time patterns are C14's; stream "
     "methods collect/select/reject/++ do not exist in the port"]
 MIN_COUNTERS = {
@@ -84,6 +93,8 @@ MIN_COUNTERS = {
               'random_leaf_runs': 400, 'infinite_expressions': 800,
               'ended_streams_polled_again': 4000, 'reset_streams_compared': 4000,
               'inval_dependent_sequences_all': 300,
+              'series_with_omitted_arguments': 1500,
+              'sequences_compared_int_float_strict': 8000,
               'inval_dependent_sequences_next': 150,
               'class_Placep': 300,
               'concurrent_seeded_streams_compared': 400,
@@ -160,7 +171,8 @@ def inval_mechanism(node, exp, exp_ended, how, inval):
             with cb.time_limit(3):
                 pat = cb.build(node)
                 got, ended, exc = cb.real_take(pat, N, how, inval)
-            if compare(exp, exp_ended, got, ended, exc) is None:
+            if compare(exp, exp_ended, got, ended, exc,
+                       mp.kind_is_fixed(node)) is None:
                 return keys
         except (cb.RealTimeout, Exception):
             pass
@@ -202,14 +214,17 @@ def seq_key(bn, bk, ctx):
     return f'C13/sequence-differs/{bn[0]}' + (f'/{d}' if d else '') + f'/{bk}{ctx}'
 
 
-def compare(exp, exp_ended, got, got_ended, exc):
-    """None or the kind of mismatch."""
-    from vf.model_patterns import same_value
+def compare(exp, exp_ended, got, got_ended, exc, strict=False):
+    """None or the kind of mismatch.  strict: int and float are different
+    results (only for expressions whose number kinds are documented)."""
+    from vf.model_patterns import same_value, same_kind
     if exc is not None:
         return f'raises-{type(exc).__name__}'
     for a, b in zip(exp, got):
         if not same_value(a, b):
             return 'value'
+        if strict and not same_kind(a, b):
+            return 'int-float-kind'
     if len(got) < len(exp):
         return 'short'
     if len(got) > len(exp):
@@ -299,7 +314,8 @@ def check_node(node, leaves, how='iter', n=N, inval=None):
     if inval is not None and getattr(inval, 'base', inval) is not None:
         how = how if how in ('next', 'embed') else 'next'
     got, got_ended, exc = cb.real_take(pat, n, how, inval)
-    return compare(exp, exp_ended, got, got_ended, exc), exp, got, exc
+    return compare(exp, exp_ended, got, got_ended, exc,
+                   mp.kind_is_fixed(node)), exp, got, exc
 
 
 BLAME_N = 8 * N     # a sub-expression may differ only beyond the first 64 values
@@ -382,6 +398,9 @@ def run_shard(spec, acc):
         acc.case(h64(text), nontrivial=nontrivial)
         for c in set(classes):
             acc.count('class_' + c)
+        if any(n_[0] in ('Pseries', 'Pgeom') and mp.OMIT in n_[1:]
+               for n_ in mp.walk(node)):
+            acc.count('series_with_omitted_arguments')
         acc.count('kind_' + kind)
         acc.maxi('max_depth', dep)
         if not exp_ended:
@@ -408,7 +427,10 @@ def run_shard(spec, acc):
                            for n_ in mp.walk(node)) and len(exp) >= 2:
                         acc.count('inval_dependent_sequences_' + how)
                 got, got_ended, exc = cb.real_take(pat, N, how, inval)
-                kind_bad = compare(exp, exp_ended, got, got_ended, exc)
+                strict = mp.kind_is_fixed(node)
+                if strict:
+                    acc.count('sequences_compared_int_float_strict')
+                kind_bad = compare(exp, exp_ended, got, got_ended, exc, strict)
                 acc.count('sequences_compared')
                 acc.count('values_compared', len(exp))
                 if kind_bad:
